@@ -188,7 +188,11 @@ func runC01(seed int64, n int, tier string, outDir string) (*Report, error) {
 			return
 		}
 		// decoder correspondence: the document the library wrote, and what the library read from it
-		if len(out) > 0 && len(out) < 2500 && (label != "random" || decCases < decBudget) && (label == "random" || idx%7 == 0) {
+		// (the decoder model reads IRIs on the URL grammar of Model/Url.v: a value holding an IRI with a percent-escape or
+		// a non-ASCII byte is judged natively only - counted, not sent to Coq)
+		if c01OutsideURLGrammar(it) {
+			rep.Count("dec-case-skipped:iri-outside-url-grammar")
+		} else if len(out) > 0 && len(out) < 2500 && (label != "random" || decCases < decBudget) && (label == "random" || idx%7 == 0) {
 			cw.Add("("+hx(out)+", Ok "+CoqItem(back)+")", fmt.Sprintf("%s idx=%d", label, idx))
 			decCases++
 		}
@@ -240,6 +244,45 @@ func trunc(s string, n int) string {
 
 func c01Class(diffs []string) string { return "" }
 
+// an IRI anywhere in the value (one level of list / property is enough for the probes) with a byte the URL grammar of
+// the decoder model does not have
+func c01OutsideURLGrammar(it ap.Item) bool {
+	bad := func(s string) bool {
+		for i := 0; i < len(s); i++ {
+			if s[i] >= 0x80 || s[i] == '%' {
+				return true
+			}
+		}
+		return false
+	}
+	var walk func(v reflect.Value, depth int) bool
+	walk = func(v reflect.Value, depth int) bool {
+		if depth == 0 {
+			return false
+		}
+		switch v.Kind() {
+		case reflect.Interface, reflect.Pointer:
+			return !v.IsNil() && walk(v.Elem(), depth)
+		case reflect.String:
+			return v.Type().Name() == "IRI" && bad(v.String())
+		case reflect.Slice:
+			for i := 0; i < v.Len(); i++ {
+				if walk(v.Index(i), depth-1) {
+					return true
+				}
+			}
+		case reflect.Struct:
+			for i := 0; i < v.NumField(); i++ {
+				if v.Type().Field(i).IsExported() && walk(v.Field(i), depth-1) {
+					return true
+				}
+			}
+		}
+		return false
+	}
+	return walk(reflect.ValueOf(it), 5)
+}
+
 // probeValues: admissible values of a field type, including guard boundaries
 func probeValues(g *Gen, t reflect.Type, name string) []reflect.Value {
 	id := ap.IRI("https://example.com/actors/alice")
@@ -249,13 +292,18 @@ func probeValues(g *Gen, t reflect.Type, name string) []reflect.Value {
 	link := &ap.Link{ID: "https://example.com/l", Type: ap.MentionType, Href: "https://example.com/h"}
 	act := &ap.Activity{ID: "https://example.com/act", Type: ap.LikeType, Object: ap.IRI("https://example.com/notes/1")}
 	v := reflect.ValueOf
+	// absolute URLs in presentations a URL library would print differently: an IRI is kept as it was written
+	odd := []ap.Item{ap.IRI("HTTPS://Example.COM/Actors/Alice"), ap.IRI("https://example.com/users/j\u00fcrgen"), ap.IRI("https://example.com/notes/3#"),
+		ap.IRI("https://example.com/a%20b?q=%C3%A9&r=a+b"), ap.IRI("https://example.com:443/x"), ap.IRI("https://example.com/a/../b/./c//d")}
 	switch {
 	case name == "ID" || name == "Type":
 		return nil
 	case t == tItems:
-		return []reflect.Value{v(ap.ItemCollection{id}), v(ap.ItemCollection{id, obj}), v(ap.ItemCollection{obj}), v(ap.ItemCollection{actor, link, act}), v(ap.ItemCollection{idless})}
+		return []reflect.Value{v(ap.ItemCollection{id}), v(ap.ItemCollection{id, obj}), v(ap.ItemCollection{obj}), v(ap.ItemCollection{actor, link, act}), v(ap.ItemCollection{idless}),
+			v(ap.ItemCollection(odd)), v(ap.ItemCollection{odd[1]})}
 	case t.Kind() == reflect.Interface:
-		items := []ap.Item{id, obj, actor, link, act, idless, ap.ItemCollection{id, obj}, ap.ItemCollection{id}}
+		items := []ap.Item{id, obj, actor, link, act, idless, ap.ItemCollection{id, obj}, ap.ItemCollection{id}, ap.ItemCollection(odd)}
+		items = append(items, odd...)
 		out := make([]reflect.Value, len(items))
 		for i, it := range items {
 			out[i] = reflect.New(t).Elem()
@@ -269,7 +317,9 @@ func probeValues(g *Gen, t reflect.Type, name string) []reflect.Value {
 	case t == tTime:
 		return []reflect.Value{v(time.Unix(1700000000, 0).UTC()), v(time.Unix(1700000000, 0).In(time.FixedZone("", 3600))), v(time.Unix(-1000000, 0).UTC())}
 	case t == tDur:
-		return []reflect.Value{v(5 * time.Second), v(-90 * time.Second), v(3*time.Hour + 25*time.Minute), v(40 * 24 * time.Hour)}
+		day := 24 * time.Hour
+		return []reflect.Value{v(5 * time.Second), v(-90 * time.Second), v(3*time.Hour + 25*time.Minute), v(40 * day), v(day), v(28 * day), v(29*day + 5*time.Second), v(30 * day),
+			v(-59 * day), v(336 * day), v(355*day + time.Hour), v(356 * day), v(385*day + 61*time.Second), v(3650 * day)}
 	case t == tSource:
 		return []reflect.Value{v(ap.Source{MediaType: "text/markdown", Content: ap.NaturalLanguageValues{{Ref: ap.NilLangRef, Value: ap.Content("src")}}}), v(ap.Source{MediaType: "text/markdown"}),
 			v(ap.Source{Content: ap.NaturalLanguageValues{{Ref: ap.NilLangRef, Value: ap.Content("src")}}})}
@@ -282,9 +332,11 @@ func probeValues(g *Gen, t reflect.Type, name string) []reflect.Value {
 		s := reflect.New(t).Elem()
 		if t.Name() == "IRI" {
 			s.SetString("https://example.com/rel")
-		} else {
-			s.SetString("en")
+			s2 := reflect.New(t).Elem()
+			s2.SetString("HTTPS://Example.COM/users/j\u00fcrgen#")
+			return []reflect.Value{s, s2}
 		}
+		s.SetString("en")
 		return []reflect.Value{s}
 	case t.Kind() == reflect.Uint:
 		a, b := reflect.New(t).Elem(), reflect.New(t).Elem()
